@@ -6,3 +6,4 @@ for p in C01 C02 C03 C04 C05 C06 C07 C08 C09 C10 C11 C12 C13 C14 C15 C16 C17 C18
   echo "rc=$rc $(echo "$out" | grep '^\[C' | tail -1)"
   echo "$out" | grep -E "^VIOLATION|^CHECKER-BROKEN|^KNOWN-FINDING|note:" | cut -c1-220
 done
+python3 "$(dirname "$0")/mksummary.py" >/dev/null 2>&1 || true
